@@ -346,7 +346,11 @@ fn test_hook(c: &HookCase) -> TestResult {
                     }
                 }
                 if ready {
-                    vensure!(alive_before == 0, "c14-future-ready-early", "{what}: the shutdown future completed although {alive_before} token(s) were alive when it was polled");
+                    // "after the last token has been dropped - never earlier": decided at the
+                    // moment the poll returns (a drop inside the poll's window may legitimately
+                    // be noticed by that very poll)
+                    let alive_now = alive(&toks);
+                    vensure!(alive_now == 0, "c14-future-ready-early", "{what}: the shutdown future completed although {alive_now} token(s) are alive ({alive_before} when it was polled)");
                 } else {
                     vensure!(alive_before > 0, "c14-future-pending-without-tokens", "{what}: the shutdown future is pending although no token exists");
                 }
